@@ -212,6 +212,10 @@ fn main() {
         println!("FNTIE-UNAVAILABLE CodecFn {}", w.replace('\n', " "));
         let _ = std::fs::remove_file(g.dir.join("CodecFn.lean"));
     }
+    if let Err(w) = gen_batch_fn(&repo, &mut g) {
+        println!("FNTIE-UNAVAILABLE BatchFn {}", w.replace('\n', " "));
+        let _ = std::fs::remove_file(g.dir.join("BatchFn.lean"));
+    }
     println!("generated: {}", g.written.join(" "));
     if failed { std::process::exit(3); }
 }
@@ -1585,6 +1589,11 @@ struct FnTr {
     externs: BTreeMap<String, String>,
     /// methods of values of an external type, taken as parameters too (method -> (Lean name, Rust return type))
     extern_methods: BTreeMap<String, (String, String)>,
+    /// what the end of a statement list means when it is a loop body: the next iteration
+    tail_k: std::cell::RefCell<Option<String>>,
+    /// loops found on the way, printed as definitions of their own in front of the function
+    loops: std::cell::RefCell<Vec<String>>,
+    fn_name: std::cell::RefCell<String>,
 }
 
 impl FnTr {
@@ -1625,6 +1634,7 @@ impl FnTr {
                 _ => Err("literal that is not an integer".into()),
             },
             Expr::Paren(p) => self.expr(&p.expr, env),
+            Expr::Reference(r) => self.expr(&r.expr, env),
             Expr::Group(p) => self.expr(&p.expr, env),
             Expr::Path(p) => {
                 let segs: Vec<String> = p.path.segments.iter().map(|s| s.ident.to_string()).collect();
@@ -1680,7 +1690,7 @@ impl FnTr {
                 }
                 match (name.as_str(), args.as_slice()) {
                     ("as_nanos", []) if tr == "Duration" => Ok((r, "u128".into())),
-                    ("len", []) if tr == "BytesMut" => Ok((format!("{r}.length"), "usize".into())),
+                    ("len", []) | ("remaining", []) if tr == "BytesMut" || tr == "Bytes" => Ok((format!("{r}.length"), "usize".into())),
                     ("checked_mul", [(a, _)]) => { let b = int_bits(&tr).ok_or("checked_mul on a non-integer")?; Ok((format!("(Rs.checkedMul {b} {r} {a})"), format!("Option<{tr}>"))) }
                     ("checked_pow", [(a, _)]) => { let b = int_bits(&tr).ok_or("checked_pow on a non-integer")?; Ok((format!("(Rs.checkedPow {b} {r} {a})"), format!("Option<{tr}>"))) }
                     ("checked_add", [(a, _)]) => { let b = int_bits(&tr).ok_or("checked_add on a non-integer")?; Ok((format!("(Rs.checkedAdd {b} {r} {a})"), format!("Option<{tr}>"))) }
@@ -1693,7 +1703,8 @@ impl FnTr {
             }
             Expr::Call(c) => {
                 let segs: Vec<String> = match &*c.func { Expr::Path(p) => p.path.segments.iter().map(|s| s.ident.to_string()).collect(), _ => return Err("call of a non-path".into()) };
-                let is_ext = self.externs.contains_key(&segs.join("::"));
+                if segs.last().map(|x| x == "size_of").unwrap_or(false) { return Ok((eval_int(e, &self.consts)?.to_string(), "usize".into())); }
+                let is_ext = self.externs.contains_key(&segs.join("::")) || (segs.len() == 1 && segs[0] == "Err" && self.buf.is_some());
                 let args: FR<Vec<(String, String)>> = if is_ext { Ok(vec![]) } else { c.args.iter().map(|a| self.expr(a, env)).collect() };
                 let args = args?;
                 let seg: Vec<&str> = segs.iter().map(|s| s.as_str()).collect();
@@ -1707,6 +1718,12 @@ impl FnTr {
                 }
                 match (seg.as_slice(), args.as_slice()) {
                     (["Ok"], [(a, t)]) if self.buf.is_some() => Ok((format!("(Rs.Out.ok {a})"), format!("Result<{t}>"))),
+                    (["Err"], _) if self.buf.is_some() && c.args.len() == 1 => {
+                        // the error is named after the function or constructor that builds it
+                        let name = match &c.args[0] { Expr::Call(ic) => match &*ic.func { Expr::Path(ip) => ip.path.segments.last().unwrap().ident.to_string(), _ => "error".into() }, _ => "error".into() };
+                        Ok((format!("(Rs.Out.err \"{name}\")"), "Result<?>".into()))
+                    }
+                    (["Vec", "new"], []) => Ok(("[]".into(), "Vec".into())),
                     (["u64", "from_be_bytes"], [(a, _)]) => Ok((format!("(Rs.fromBe {a})"), "u64".into())),
                     (["Some"], [(a, t)]) | (["Ok"], [(a, t)]) => Ok((format!("(some {a})"), format!("Option<{t}>"))),
                     ([t, "try_from"], [(a, _)]) if int_bits(t).is_some() => Ok((format!("(Rs.tryFrom {} {a})", int_bits(t).unwrap()), format!("Option<{t}>"))),
@@ -1831,7 +1848,10 @@ impl FnTr {
     /// a statement list as one Lean term; `ret` wraps every value the function can return (tail value and `return`s)
     fn stmts(&self, stmts: &[syn::Stmt], env: &FEnv, ret: &dyn Fn(&str) -> String) -> FR<(String, String)> {
         use syn::Stmt;
-        let (first, rest) = match stmts.split_first() { Some(x) => x, None => return Err("empty block".into()) };
+        let (first, rest) = match stmts.split_first() {
+            Some(x) => x,
+            None => return match &*self.tail_k.borrow() { Some(k) => Ok((k.clone(), "?".into())), None => Err("empty block".into()) },
+        };
         match first {
             Stmt::Item(Item::Const(_)) => self.stmts(rest, env, ret),
             Stmt::Local(l) => {
@@ -1858,7 +1878,10 @@ impl FnTr {
                         let mut e2 = env.clone();
                         e2.insert(name.clone(), tv.strip_prefix("Result<").map(|x| x.trim_end_matches('>').to_string()).unwrap_or("?".into()));
                         let (k, t) = self.stmts(rest, &e2, ret)?;
-                        return Ok((format!("(match {v} with\n  | .err e => .err e\n  | .panic p => .panic p\n  | .ok {name} => {k})"), t));
+                        let is_buf = |a: &Expr| -> bool { let a = match a { Expr::Reference(r) => &*r.expr, o => o }; matches!(a, Expr::Path(p) if p.path.is_ident(buf)) };
+                        let threads = match &*tr.expr { Expr::MethodCall(m) => m.args.iter().any(is_buf), Expr::Call(c) => c.args.iter().any(is_buf), _ => false };
+                        let okp = if threads { format!("({name}, {buf})") } else { name.clone() };
+                        return Ok((format!("(match {v} with\n  | .err e => .err e\n  | .panic p => .panic p\n  | .ok {okp} => {k})"), t));
                     }
                     // let x = buf.get_u8();  /  let x = buf.split_to(n);
                     if let Expr::MethodCall(m) = &*init.expr {
@@ -1867,6 +1890,7 @@ impl FnTr {
                             let args = args?;
                             let op_ty = match (m.method.to_string().as_str(), args.len()) {
                                 ("get_u8", 0) => Some((format!("Rs.getU8 {buf}"), "u8")),
+                                ("get_u64", 0) => Some((format!("Rs.getU64 {buf}"), "u64")),
                                 ("split_to", 1) => Some((format!("Rs.splitTo {buf} {}", args[0].0), "BytesMut")),
                                 _ => None,   // a method that only looks (`len`): an ordinary expression
                             };
@@ -1917,6 +1941,18 @@ impl FnTr {
                 // leaving the function
                 if let Some(r) = Self::returned(e) { let (v, t) = self.expr(r, env)?; return Ok((ret(&v), t)); }
                 if rest.is_empty() && semi.is_none() {
+                    if let (Some(buf), Expr::Call(c)) = (&self.buf, e) {
+                        if matches!(&*c.func, Expr::Path(p) if p.path.is_ident("Ok")) && c.args.len() == 1 {
+                            if let Expr::MethodCall(m) = &c.args[0] {
+                                if matches!(&*m.receiver, Expr::Path(p) if p.path.is_ident(buf)) && m.args.is_empty() {
+                                    let op = match m.method.to_string().as_str() { "get_u64" => Some("Rs.getU64"), "get_u8" => Some("Rs.getU8"), _ => None };
+                                    if let Some(op) = op {
+                                        return Ok((format!("(match {op} {buf} with\n  | none => .panic \"{}\"\n  | some (v_, {buf}) => {})", m.method, ret("(Rs.Out.ok v_)")), "Result<u64>".into()));
+                                    }
+                                }
+                            }
+                        }
+                    }
                     if let Expr::Match(m) = e {
                         return self.mtch(m, env, &|b, e2| { let b = Self::returned(b).unwrap_or(b); let (v, t) = self.expr(b, e2)?; Ok((ret(&v), t)) });
                     }
@@ -1938,10 +1974,43 @@ impl FnTr {
                             let okp = if threads { format!("(_, {buf})") } else { "_".to_string() };
                             return Ok((format!("(match {v} with\n  | .err e => .err e\n  | .panic p => .panic p\n  | .ok {okp} => {k})"), t));
                         }
+                        // for _ in 0..n { body }: a definition of its own, recursive in the number of iterations still to go; the
+                        // variables the body changes (the buffer, vectors it pushes to) go round with it; the body may leave the
+                        // function only with an error
+                        Expr::ForLoop(fl) => {
+                            if !matches!(&*fl.pat, Pat::Wild(_)) { return Err("loop variable".into()); }
+                            let rg = match &*fl.expr { Expr::Range(r) if matches!(r.limits, syn::RangeLimits::HalfOpen(_)) => r, _ => return Err("loop range".into()) };
+                            let zero = rg.start.as_ref().map(|x| quote::quote!(#x).to_string() == "0").unwrap_or(false);
+                            if !zero { return Err("loop range does not start at 0".into()); }
+                            let (n, _) = self.expr(rg.end.as_ref().ok_or("open loop range")?, env)?;
+                            let body_txt = { let b = &fl.body; quote::quote!(#b).to_string() };
+                            let mut vars: Vec<String> = env.iter().filter(|(v, t)| *t == "Vec" && body_txt.contains(&format!("{v} . push ("))).map(|(v, _)| v.clone()).collect();
+                            vars.push(buf.clone());
+                            let lname = format!("{}_loop", self.fn_name.borrow());
+                            let call_next = format!("({lname} n_ {})", vars.join(" "));
+                            let prev = self.tail_k.replace(Some(call_next));
+                            let body = self.stmts(&fl.body.stmts, env, &|v| if v.starts_with("(Rs.Out.err ") { v.to_string() } else { "RETURN_OF_A_VALUE_INSIDE_A_LOOP".into() });
+                            self.tail_k.replace(prev);
+                            let (body, _) = body?;
+                            if body.contains("RETURN_OF_A_VALUE_INSIDE_A_LOOP") { return Err("a loop body that returns a value".into()); }
+                            let tys: FR<Vec<String>> = vars.iter().map(|v| Ok(match env.get(v).map(|s| s.as_str()) { Some("Vec") => "List (List UInt8)".to_string(), Some("BytesMut") | Some("Bytes") => "List UInt8".to_string(), _ => return Err(format!("loop variable {v}")) })).collect();
+                            let tys = tys?;
+                            let mut d = format!("/-- the `for _ in 0..{n}` loop of `{}`: iterations still to go, then the variables the body changes -/\ndef {lname} : Nat → {} → Rs.Out ({})\n", self.fn_name.borrow(), tys.join(" → "), tys.join(" × "));
+                            let _ = writeln!(d, "  | 0, {} => .ok ({})", vars.join(", "), vars.join(", "));
+                            let _ = writeln!(d, "  | n_ + 1, {} =>\n  {body}\n", vars.join(", "));
+                            self.loops.borrow_mut().push(d);
+                            let (k, t) = self.stmts(rest, env, ret)?;
+                            return Ok((format!("(match {lname} {n} {} with\n  | .err e => .err e\n  | .panic p => .panic p\n  | .ok ({}) => {k})", vars.join(" "), vars.join(", ")), t));
+                        }
                         Expr::MethodCall(m) => {
                             let recv = match &*m.receiver { Expr::Path(p) => p.path.get_ident().map(|i| i.to_string()), _ => None }.ok_or("method statement")?;
                             let name = m.method.to_string();
                             // buf.reserve(n): capacity only, the contents do not change
+                            if name == "push" && m.args.len() == 1 && env.get(&recv).map(|t| t == "Vec").unwrap_or(false) {
+                                let (v, _) = self.expr(&m.args[0], env)?;
+                                let (k, t) = self.stmts(rest, env, ret)?;
+                                return Ok((format!("(let {recv} := {recv} ++ [{v}];\n  {k})"), t));
+                            }
                             if recv == *buf && name == "reserve" { return self.stmts(rest, env, ret); }
                             if recv == *buf && (name == "put_u64" || name == "put_u8") && m.args.len() == 1 {
                                 let (v, _) = self.expr(&m.args[0], env)?;
@@ -2038,7 +2107,7 @@ fn collect_local_consts(b: &syn::Block, m: &mut BTreeMap<String, Expr>) {
 fn gen_backoff_fn(repo: &Path, g: &mut Gen) -> FR<()> {
     let rel = "client/src/keep_alive/backoff_strategy.rs";
     let src = Src::load(repo, rel).map_err(|s| s.0)?;
-    let mut tr = FnTr { consts: src.consts(), structs: BTreeMap::new(), enums: BTreeMap::new(), fns: BTreeMap::new(), self_ty: None, self_reads: Default::default(), buf: None, externs: BTreeMap::new(), extern_methods: BTreeMap::new() };
+    let mut tr = FnTr { consts: src.consts(), structs: BTreeMap::new(), enums: BTreeMap::new(), fns: BTreeMap::new(), self_ty: None, self_reads: Default::default(), buf: None, externs: BTreeMap::new(), extern_methods: BTreeMap::new(), tail_k: Default::default(), loops: Default::default(), fn_name: Default::default() };
     let mut free: BTreeMap<String, syn::ItemFn> = BTreeMap::new();
     for it in &src.ast.items {
         match it {
@@ -2110,7 +2179,7 @@ fn gen_codec_fn(repo: &Path, g: &mut Gen) -> FR<()> {
     let rel = "protocol/src/codec.rs";
     let src = Src::load(repo, rel).map_err(|s| s.0)?;
     let mut tr = FnTr { consts: src.consts(), structs: BTreeMap::new(), enums: BTreeMap::new(), fns: BTreeMap::new(), self_ty: None,
-                        self_reads: Default::default(), buf: Some("src".into()), externs: BTreeMap::new(), extern_methods: BTreeMap::new() };
+                        self_reads: Default::default(), buf: Some("src".into()), externs: BTreeMap::new(), extern_methods: BTreeMap::new(), tail_k: Default::default(), loops: Default::default(), fn_name: Default::default() };
     tr.externs.insert("Frame::try_from".into(), "frameTryFrom".into());
     let mut out = String::new();
     // free function validate_payload_length(length: u64) -> Result<(), _>
@@ -2166,5 +2235,42 @@ fn gen_codec_fn(repo: &Path, g: &mut Gen) -> FR<()> {
     let (body, _) = tr.stmts(&enc.block.stmts, &env, &move |v| format!("(Rs.Out.withState {v} {b3})"))?;
     let _ = writeln!(out, "\n/-- `<MessageCodec as Encoder<Frame>>::encode(&mut self, {item}: Frame, {ebuf}: &mut BytesMut)`: the result and the new contents of `{ebuf}`.\n    `frameGetLength` / `frameGetType` / `frameWriteToBytes` are `Frame::{{get_length, get_type, write_to_bytes}}` (modelled in `Wire/Frame.lean`). -/\ndef encode {{F : Type}} (frameGetLength : F → Rs.Out Nat) (frameGetType : F → Nat) (frameWriteToBytes : F → List UInt8 → Rs.Out (Unit × List UInt8))\n    ({item} : F) ({ebuf} : List UInt8) : Rs.Out (Unit × List UInt8) :=\n  {body}");
     g.emit_with_imports("CodecFn", &["SeliumModel.Rs"], &[rel], &format!("open Selium\n\n{out}"));
+    Ok(())
+}
+
+fn gen_batch_fn(repo: &Path, g: &mut Gen) -> FR<()> {
+    let rel = "protocol/src/utils.rs";
+    let src = Src::load(repo, rel).map_err(|s| s.0)?;
+    let mut tr = FnTr { consts: src.consts(), structs: BTreeMap::new(), enums: BTreeMap::new(), fns: BTreeMap::new(), self_ty: None,
+                        self_reads: Default::default(), buf: None, externs: BTreeMap::new(), extern_methods: BTreeMap::new(),
+                        tail_k: Default::default(), loops: Default::default(), fn_name: Default::default() };
+    let free: BTreeMap<String, &syn::ItemFn> = src.ast.items.iter().filter_map(|it| match it { Item::Fn(f) => Some((f.sig.ident.to_string(), f)), _ => None }).collect();
+    let mut out = String::new();
+    // helpers that read from the buffer first (they are called by the decoder), then the decoder
+    for fname in ["read_u64", "decode_message_batch"] {
+        let f = free.get(fname).ok_or_else(|| format!("fn {fname} not found"))?;
+        let mut env = FEnv::new();
+        let mut bufname = None;
+        for a in &f.sig.inputs {
+            if let syn::FnArg::Typed(pt) = a {
+                let n = match &*pt.pat { Pat::Ident(i) => i.ident.to_string(), _ => return Err("parameter pattern".into()) };
+                match ty_str(&pt.ty).as_str() {
+                    "&mutBytes" | "Bytes" | "&mutBytesMut" | "BytesMut" => { env.insert(n.clone(), "Bytes".into()); bufname = Some(n); }
+                    other => return Err(format!("{fname} takes a {other}")),
+                }
+            }
+        }
+        let bufname = bufname.ok_or_else(|| format!("{fname} has no buffer parameter"))?;
+        tr.buf = Some(bufname.clone());
+        *tr.fn_name.borrow_mut() = fname.to_string();
+        collect_local_consts(&f.block, &mut tr.consts);
+        let b2 = bufname.clone();
+        let (body, _) = tr.stmts(&f.block.stmts, &env, &move |v| format!("(Rs.Out.withState {v} {b2})"))?;
+        for l in tr.loops.borrow_mut().drain(..) { out.push_str(&l); }
+        let (rty, lty) = if fname == "read_u64" { ("Result<u64>", "Nat") } else { ("Result<Vec>", "List (List UInt8)") };
+        let _ = writeln!(out, "/-- `fn {fname}({bufname})`: the result and what is left of `{bufname}` -/\ndef {fname} ({bufname} : List UInt8) : Rs.Out ({lty} × List UInt8) :=\n  {body}\n");
+        tr.fns.insert(fname.to_string(), (vec![(bufname.clone(), "Bytes".into())], rty.into()));
+    }
+    g.emit_with_imports("BatchFn", &["SeliumModel.Rs"], &[rel], &format!("open Selium\n\n{out}"));
     Ok(())
 }
